@@ -19,6 +19,7 @@ func Run(c *core.Check) {
 	runPaths(c)
 	runDocs(c)
 	runDefaultAttrs(c)
+	runCharData(c)
 	runSequences(c)
 }
 
